@@ -8,7 +8,7 @@ import json
 import os
 
 SHAPES = ["list", "list", "str", "nested", "dict", "dict_empty", "tuple", "dict_values"]
-STYLES = ["plain", "plain", "plain", "dot", "dotdot", "abs"]
+STYLES = ["plain", "plain", "plain", "dot", "dotdot", "abs", "pathobj"]
 
 
 class TModel:
@@ -145,21 +145,6 @@ class WModel:
         return WModel.from_json(json.loads(json.dumps(self.to_json())))
 
 
-# ---- rendering -------------------------------------------------------------------------------
-def spell(path, style, proj, wd=""):
-    if style not in ("abs", "abs_dot") and wd:
-        path = os.path.relpath(path, wd)
-    if style == "dot":
-        return "./" + path
-    if style == "dotdot":
-        return "zz/../" + path
-    if style == "abs":
-        return proj + "/" + path
-    if style == "abs_dot":  # absolute but not normalised (protect sets only)
-        return proj + "/./" + path
-    return path
-
-
 class _Raw:
     """A Python expression rendered verbatim (repr() gives the source text)."""
 
@@ -168,6 +153,23 @@ class _Raw:
 
     def __repr__(self):
         return self.text
+
+
+# ---- rendering -------------------------------------------------------------------------------
+def spell(path, style, proj, wd=""):
+    if style not in ("abs", "abs_dot") and wd:
+        path = os.path.relpath(path, wd)
+    if style == "dot":
+        return "./" + path
+    if style == "dotdot":
+        return "zz/../" + path
+    if style == "pathobj":  # an os.PathLike instead of a string
+        return _Raw("pathlib.Path(%r)" % path)
+    if style == "abs":
+        return proj + "/" + path
+    if style == "abs_dot":  # absolute but not normalised (protect sets only)
+        return proj + "/./" + path
+    return path
 
 
 def shape(paths, kind):
@@ -197,7 +199,7 @@ def shape(paths, kind):
 
 
 def render(model: WModel, proj: str) -> str:
-    out = ["import os", "from gwf import Workflow, AnonymousTarget", "",
+    out = ["import os", "import pathlib", "from gwf import Workflow, AnonymousTarget", "",
            f"gwf = Workflow(defaults={model.defaults!r})", ""]
     for t in model.targets.values():
         ins = shape([spell(p, t.style.get(p, "plain"), proj, t.wd) for p in t.inputs], t.in_shape)
